@@ -91,6 +91,13 @@ def build(ctx, targets):
         ctx.build_msg = r.out[-4000:] if not r.ok else ""
         ctx.failed_file = r.failed_file
         ctx.build_wall = r.wall
+        # the correspondence case files import Model/*.vo (definitions only), also modules outside the cone of
+        # this property's theorems: after a change of /repo that alters a generated file they must be rebuilt as
+        # well, or coqc rejects the cases with "inconsistent assumptions" (a stale .vo, not a property failure)
+        import glob
+        support = sorted(x[len(str(common.COQ)) + 1:-2] + ".vo" for x in glob.glob(str(common.COQ / "theories" / "Model" / "*.v")))
+        support += ["theories/Proofs/CacheLemmas.vo"]
+        common.coq_make(support)
 
 
 def setup():
